@@ -317,24 +317,7 @@ def classify(req, impl):
 
 
 def finding_class(req, impl, model, why):
-    """class of a failing case: the known quirk is a handler answering CIF_FINISHED (1) from a packet-level callback"""
-    sp = split_impl(impl)
-    if sp is None:
-        return None
-    try:
-        _, prog = split_req(req)
-        evs = parse_log(sp[2])
-    except Exception:       # noqa
-        return None
-    for k in sorted(prog):
-        if k < len(evs) and prog[k] > 0:
-            # the first positive answer that was reached
-            if prog[k] == CIF_FINISHED and evs[k][0] in ("ps", "pe", "it") and len(evs) > k + 1:
-                return "handler returns CIF_FINISHED (1) from packet_start/item/packet_end: walk continues with loop_end"
-            return None
-        if k < len(evs) and prog[k] == END:
-            return None
-    return None
+    return None         # no open finding (F32, CIF_FINISHED from packet-level callbacks, was fixed by d1128e2)
 
 
 def shrink(req):
